@@ -1,3 +1,4 @@
+import Std.Data.HashSet
 import FqModel.Proto
 import FqModel.Bits
 import FqModel.Gaps
@@ -74,7 +75,13 @@ def addEvents (a : Array Ev) (rs : List Range) (field : Bool) : Array Ev :=
 def sweep (total : Range) (rs gs : List Range) (holeRs : List Range := rs) (ignoreOverlap : Bool := false) :
     Option (Int × BitVerdict) × Option Int := Id.run do
   let ev := ((addEvents (addEvents #[] rs true) gs false).push ⟨total.start, 0, 0⟩).push ⟨total.stop, 0, 0⟩
-  let ev := ev.qsort (fun x y => x.pos < y.pos)
+  -- merge sort: no quadratic behaviour on many events at one position (long lists of empty/duplicate ranges)
+  let ev := (ev.toList.mergeSort (fun x y => decide (x.pos ≤ y.pos))).toArray
+  -- `oneBitHole holeRs lo` for an uncovered bit `lo` = some range stops at lo and some range starts at lo+1; looked
+  -- up in hash sets (a list scan per hole is quadratic on 10^5 ranges); cross-checked against the definition by the
+  -- per-bit evaluation on every buffer of <= smallLimit bits (gapsVerdict)
+  let stops : Std.HashSet Int := holeRs.foldl (fun s r => s.insert r.stop) {}
+  let starts : Std.HashSet Int := holeRs.foldl (fun s r => s.insert r.start) {}
   let mut cf : Int := 0
   let mut cg : Int := 0
   let mut bad : Option (Int × BitVerdict) := none
@@ -91,13 +98,13 @@ def sweep (total : Range) (rs gs : List Range) (holeRs : List Range := rs) (igno
         if cf > 0 && cg > 0 then
           if bad.isNone && !ignoreOverlap then bad := some (lo, .overlap)
         else if cf ≤ 0 && cg ≤ 0 then
-          if hi - lo == 1 && oneBitHole holeRs lo then
+          if hi - lo == 1 && stops.contains lo && starts.contains (lo + 1) then
             if known.isNone then known := some lo
           else if bad.isNone then bad := some (lo, .lost)
   return (bad, known)
 
 def gapsVerdict (compare : Bool) (total : Range) (rs implGaps : List Range) : String :=
-  let model := if compare then gaps total rs else implGaps
+  let model := if compare then gapsPresorted total rs else implGaps
   let small := total.len.toNat ≤ smallLimit
   let sw := sweep total rs implGaps
   let (bad, known) := if small then perBit total rs implGaps else sw
@@ -171,7 +178,7 @@ def gapbitsVerdict (hexw soff snb sgl : String) (obs : List String) : String :=
   | _, _, _, _ => "BADOP parse"
 
 def sortRanges (l : List Range) : List (Int × Int) :=
-  (l.map (fun r => (r.start, r.len))).toArray.qsort (fun a b => a.1 < b.1 || (a.1 == b.1 && a.2 < b.2)) |>.toList
+  (l.map (fun r => (r.start, r.len))).mergeSort (fun a b => decide (a.1 < b.1) || (a.1 == b.1 && decide (a.2 ≤ b.2)))
 
 def withDiv (v div : String) : String :=
   if div.isEmpty then v
